@@ -1,15 +1,26 @@
 #!/bin/sh
-# run every seeded change against the quick check of its property; one line per change in seeded/RESULTS.tsv
+# Run every seeded change against the quick check of its property; one line per change in seeded/RESULTS.tsv.
+# With HARVEST=1 the shrunk replay of the first violation is kept as corpus/<prop>/kill-<change>.case (a regression input that
+# every later run of the check replays first), provided it is a deterministic target's case and passes on the unchanged tree.
 cd "$(dirname "$0")/.."
 out=seeded/RESULTS.tsv
 printf "change\tproperty\texit\tseconds\tfirst_tag\n" > $out
 for d in seeded/C*; do
   id=$(basename $d); prop=$(echo $id | cut -c1-3)
+  chk=$prop
   t0=$(date +%s)
-  log=$(tools/try_seeded.sh $d/patch.diff $prop --scale ${SCALE:-0.5} 2>&1)
+  log=$(tools/try_seeded.sh $d/patch.diff $chk --scale ${SCALE:-0.5} 2>&1)
   rc=$(echo "$log" | grep -o "exit=[0-9]*" | tail -1 | cut -d= -f2)
   tag=$(echo "$log" | grep -m1 "tag=" | sed 's/.*tag=\([^ ]*\).*/\1/')
   t1=$(date +%s)
   printf "%s\t%s\t%s\t%s\t%s\n" $id $prop "$rc" $((t1-t0)) "$tag" >> $out
   echo "$id exit=$rc $((t1-t0))s $tag"
+  if [ "${HARVEST:-0}" = 1 ] && [ "$rc" = 1 ]; then
+    rp=$(echo "$log" | grep -m1 "^VIOLATION property=" | sed 's/.* replay=//')
+    if [ -f "$rp" ] && ! grep -q "^target=race" "$rp" && ! echo "$tag" | grep -q "^tsan"; then
+      mkdir -p corpus/$prop
+      grep -v "^helper=" "$rp" > corpus/$prop/kill-$id.case
+      if ! bin/check $prop --replay corpus/$prop/kill-$id.case 2>&1 | grep -q "replay: no violation"; then echo "  (replay of $id does not pass on the unchanged tree: dropped)"; rm -f corpus/$prop/kill-$id.case; fi
+    fi
+  fi
 done
